@@ -113,16 +113,6 @@ Definition permute {A} (d : A) (p : list nat) (l : list A) : list A :=
 Definition spell_value (c : choice) (k : kwargs) : str :=
   join [59] (map (render_part c) (permute (PCount 0) (c_perm c) (parts_of_kw k))).
 
-(* insert "\n " before position i (counted in the unfolded text) when i is listed, i > 0 and the
-   previous character does not end a line *)
-Fixpoint fold_text (ps : list nat) (i : nat) (prev : Z) (s : str) : str :=
-  match s with
-  | [] => []
-  | ch :: r =>
-    (if mem_nat i ps && negb (i =? 0)%nat && negb (prev =? 10) then [10; 32] else [])
-    ++ ch :: fold_text ps (S i) ch r
-  end.
-
 Fixpoint case_text (mask cur : list bool) (s : str) : str :=
   match s with
   | [] => []
@@ -148,15 +138,27 @@ Definition dtstart_line (c : choice) (tzname : str) (d : dt) : str :=
   ++ (if 2 <=? dtz d then s_TZIDparm ++ tzname else [])
   ++ [58] ++ dt_spell (c_dshort c) d.
 
-Definition spell_plain (c : choice) (tzname : str) (start : option dt) (k : kwargs) : str :=
+(* the lines of a spelling: optional DTSTART line, then the rule line *)
+Definition spell_lines (c : choice) (tzname : str) (start : option dt) (k : kwargs) : list str :=
   (match start with
-   | Some d => if c_inline c =? 0 then [] else dtstart_line c tzname d ++ [10]
+   | Some d => if c_inline c =? 0 then [] else [dtstart_line c tzname d]
    | None => []
    end)
-  ++ (if c_prefix c then s_RRULEc else []) ++ spell_value c k.
+  ++ [(if c_prefix c then s_RRULEc else []) ++ spell_value c k].
+
+Definition spell_plain (c : choice) (tzname : str) (start : option dt) (k : kwargs) : str :=
+  join [10] (spell_lines c tzname start k).
+
+(* a line folded before the listed positions (counted within the line, never before its first
+   character): "\n " inserted *)
+Fixpoint fold_line (ps : list nat) (i : nat) (s : str) : str :=
+  match s with
+  | [] => []
+  | ch :: r => (if mem_nat i ps && negb (i =? 0)%nat then [10; 32] else []) ++ ch :: fold_line ps (S i) r
+  end.
 
 Definition spell (c : choice) (tzname : str) (start : option dt) (k : kwargs) : str :=
-  case_text (c_case c) (c_case c) (fold_text (c_folds c) 0 10 (spell_plain c tzname start k)).
+  case_text (c_case c) (c_case c) (join [10] (map (fold_line (c_folds c) 0) (spell_lines c tzname start k))).
 
 (* the options that go with a spelling *)
 Definition spell_opts (c : choice) (start : option dt) (o : opts) : opts :=
